@@ -2,4 +2,9 @@
 HARNESSES = [
     COMMON["dec12"]("ccs_gate", ["C06"], COMMON["dec12_cases"](64, 40, dtls_only=("dtls10", "dtls12n")) + COMMON["dec12_cases"](96, 56, tier="thorough")),
 ]
-PROPERTY = dict(level="model_checking", explanation="", bounds="", outside="", assumptions=[])
+PROPERTY = dict(level='model_checking',
+    claim='ChangeCipherSpec activates the read cipher only when Finished is expected (or the documented ticket-limbo cases after deriving keys); the handshake parser is entered only for handshake records, once per call.',
+    bounds='as C01 (record decoder harness)',
+    outside='the handshake dispatcher parseSSLHandshake / tls13ParseHandshakeMessage transition tables (C06.a/d) are not yet encoded: message-order checking inside the handshake layer is NOT decided',
+    explanation='ChangeCipherSpec activates the read cipher only when Finished is expected (or the documented ticket-limbo cases after deriving keys); the handshake parser is entered only for handshake records, once per call.',
+    assumptions=[])
